@@ -26,3 +26,15 @@ package segment
 //@   trusted
 //@   modifies nothing
 //@   ensures forall i int :: 0 <= i && i < len(result) ==> isFirstIA(segs, result[i])
+
+//@ # ---- AddASEntry (C23): signing and protobuf encoding are not interpreted; on success the entry is appended
+//@ func (*PathSegment).AddASEntry
+//@   trusted
+//@   requires ps != nil
+//@   modifies ps.ASEntries, arr(ps.ASEntries)
+//@   ensures result != nil ==> len(ps.ASEntries) == old(len(ps.ASEntries))
+//@   ensures result == nil ==> len(ps.ASEntries) == old(len(ps.ASEntries)) + 1
+//@   ensures result == nil ==> ps.ASEntries[len(ps.ASEntries)-1].Local == asEntry.Local && ps.ASEntries[len(ps.ASEntries)-1].Next == asEntry.Next && ps.ASEntries[len(ps.ASEntries)-1].HopEntry == asEntry.HopEntry && ps.ASEntries[len(ps.ASEntries)-1].PeerEntries == asEntry.PeerEntries && ps.ASEntries[len(ps.ASEntries)-1].MTU == asEntry.MTU
+//@ func (*PathSegment).Validate
+//@   trusted
+//@   modifies nothing
